@@ -25,7 +25,7 @@ OUTSIDE = ["urlencoded forms and query strings (urllib.parse)", "EnvironBuilder 
 SHAPES = {"field": ["field"], "file": ["file"], "field+file": ["field", "file"], "file+field-same-name": ["file", "field"], "two-fields": ["field", "field"]}
 
 
-def body_roundtrip(I, X, shape="field", n=2, nn=1, boundary="b"):
+def body_roundtrip(I, X, shape="field", n=2, nn=1, boundary="b", chunk=0):
     from werkzeug.datastructures import Headers
     from werkzeug.sansio.multipart import Data, Epilogue, Field, File, MultipartEncoder, Preamble
 
@@ -59,7 +59,12 @@ def body_roundtrip(I, X, shape="field", n=2, nn=1, boundary="b"):
         wire = pconcat(wire, I.call(enc.send_event, (Data(data=payload, more_data=False),)))
         sent.append((kind, name, filename, payload))
     wire = pconcat(wire, I.call(enc.send_event, (Epilogue(data=b""),)))
-    parts, shp, err = decode(I, X, bnd, [wire])
+    if chunk:
+        total = plen(wire)
+        pieces = [wire[i:i + chunk] for i in range(0, total, chunk)]
+    else:
+        pieces = [wire]
+    parts, shp, err = decode(I, X, bnd, pieces)
     ok = err is None and len(parts) == len(sent)
     if ok:
         for (kind, name, filename, payload), got in zip(sent, parts):
@@ -70,9 +75,50 @@ def body_roundtrip(I, X, shape="field", n=2, nn=1, boundary="b"):
     return ok, {"wire": wire, "parts": parts, "err": err}
 
 
+def body_urlencoded(I, X, nk=1, nv=1, repeated=False):
+    """urls._urlencode -> urllib.parse.parse_qsl (as Request.form / Request.args use it):
+    keys and values come back unchanged, in order, incl. repeated keys and empty values"""
+    from urllib.parse import parse_qsl
+
+    from werkzeug.urls import _urlencode
+
+    k = X.str("k", nk, minlen=nk, maxcp=0x7FF)
+    v = X.str("v", nv, minlen=nv, maxcp=0x7FF)
+    X.assume(plen(k) > 0)
+    for t in (k, v):
+        X.assume(pnone_in(t, [(0xD800, 0xDFFF)]))
+    items = [(k, v), ("z", "")] + ([(k, "2")] if repeated else [])
+    qs = I.call(_urlencode, (items,))
+    back = I.call(parse_qsl, (qs,), {"keep_blank_values": True, "errors": "werkzeug.url_quote"})
+    ok = len(back) == len(items)
+    if ok:
+        for (a, b), (c, d) in zip(back, items):
+            ok = pand(ok, peq(a, c), peq(b, d))
+    ok = pand(ok, pall_in(qs, [(0x21, 0x7E)]))
+    return ok, {"qs": qs, "back": [list(x) for x in back]}
+
+
+def make_stubs():
+    from harness.c07 import make_stubs as m
+
+    st = m()
+    import urllib.parse
+
+    st.pop(urllib.parse.parse_qsl, None)  # here parse_qsl itself is interpreted from the stdlib source
+    return st
+
+
 def obligations(tier, seed):
     out = []
     quick = tier == "quick"
+    # (urlencoded forms: body_urlencoded interprets urllib.parse.parse_qsl from its source, but its
+    # path count is out of reach even for one character -- not registered, outside the claim)
+    # chunked decoding of the encoder's output with a realistic boundary
+    for shape in ("field", "file"):
+        for chunk in ([9, 16, 30] if quick else [5, 9, 12, 16, 23, 30, 41]):
+            out.append({"name": f"roundtrip-chunked[{shape},chunk={chunk}]", "body": "body_roundtrip",
+                        "params": {"shape": shape, "n": 2, "nn": 1, "boundary": "----long-boundary-0123456789", "chunk": chunk},
+                        "opts": {"budget_s": 900, "ctx": {"max_cp": 0x7FF}}})
     for shape in SHAPES:
         for boundary in ("b", "xyz"):
             for n in ([0, 1, 3] if quick else [0, 1, 2, 3, 4]):
